@@ -731,18 +731,35 @@ def shrink(binary, case, key):
     return cur
 
 
-def model_eval_chunked(values, chunk=12, workers=12):
-    """vlib.model_eval in many short-lived runner processes: the extracted runner gets superlinearly slower the more
-    (large) values one process has handled (232 sweep values: 92 s in one process, 2.4 s in 8 interleaved chunks)"""
+def model_eval_chunked(values, chunk=24, workers=8):
+    """the extracted runner (vlib.build_runner, runner/driver.ml) in many short-lived processes: one process gets
+    superlinearly slower the more (large) values it has handled (232 sweep values: 92 s in one process, 2.4 s in 8
+    interleaved chunks).  vlib.model_eval is not called from the threads: build_runner / coq_make are not thread safe."""
+    import subprocess
     from concurrent.futures import ThreadPoolExecutor
     if not values:
         return []
+    binp = vlib.build_runner("C10")
     k = max(1, (len(values) + chunk - 1) // chunk)
     parts = [list(range(i, len(values), k)) for i in range(k)]
+
+    def one(idx):
+        inp = "\n".join(vlib.venc(values[i]) for i in idx) + "\n"
+        try:
+            p = subprocess.run([binp], input=inp, stdout=subprocess.PIPE, stderr=subprocess.PIPE, text=True, timeout=900)
+        except subprocess.TimeoutExpired:
+            return None, "timeout"
+        ls = p.stdout.splitlines()
+        if p.returncode != 0 or len(ls) != len(idx):
+            return None, "rc=%s, %d/%d lines: %s" % (p.returncode, len(ls), len(idx), (p.stderr or "")[-500:])
+        return [l.startswith("1") for l in ls], None
+
     with ThreadPoolExecutor(workers) as ex:
-        rs = list(ex.map(lambda idx: vlib.model_eval("C10", [values[i] for i in idx], par=1, timeout=900), parts))
+        rs = list(ex.map(one, parts))
     res = [None] * len(values)
-    for idx, r in zip(parts, rs):
+    for idx, (r, err) in zip(parts, rs):
+        if r is None:
+            raise vlib.Broken("model runner for C10 failed", err)
         for i, ok in zip(idx, r):
             res[i] = ok
     return res
@@ -793,7 +810,7 @@ def run(ctx, only_cases=None):
         cases += gen_stream_tracker(rng, 600 if thorough else 80)
         cases += gen_dialog(rng, 1500 if thorough else 150)
         cases += gen_pool(rng, 200 if thorough else 24)
-        cases += [] if os.environ.get("C10_NOSWEEP") else gen_size_sweep(rng, thorough)
+        cases += gen_size_sweep(rng, thorough)
         cases += gen_stream_hostile(rng, 600 if thorough else 60)
         cases += gen_stream_big(rng, thorough)
         cases += gen_tid(rng, 400 if thorough else 40)
@@ -847,7 +864,6 @@ def run(ctx, only_cases=None):
             owner.append(i)
     mism = []
     try:
-        vlib.build_runner("C10")
         res = model_eval_chunked(values)
         mism = sorted({owner[k] for k, ok in enumerate(res) if not ok})
         # cross-check of the extraction: the same (small) cases inside Coq with vm_compute
